@@ -475,6 +475,9 @@ func init() {
 		r.importing = ""
 		r.importing = "C17"
 		checkFilter(r, prog, a, "c17")
+		// "the same result on every call" also fails if the result depends on the order Go hands out a map's entries
+		r.importing = "C14"
+		checkUnorderedSources(r, prog, a, "c14")
 		r.importing = ""
 		r.Technique = "the effect census of C12 restricted to the evaluation path (the datum is only read; reflect mutators only on containers made by MakeSlice/MakeMap), syntax-tree integrity census, field-write census for Evaluator/Filter, def-use check of Expression()"
 		r.Explain = "Decides: Evaluate and Execute write only memory they allocate (so neither the datum nor anything reachable from it, nor the evaluator, filter or tree, is modified and nothing is carried to the next call — hence the next call returns what a fresh evaluator returns); reflect mutators are applied only to values rooted at reflect.MakeSlice/MakeMap/Append results of the same function; Filter returns Interface() of such a fresh container (C17 shape rule imported); no field of Evaluator or Filter has a writer outside its constructor; the syntax tree is written only by the parser's actions and by the idempotent regexp memo before publication; Expression() returns a field whose only writer stores CreateEvaluator's expression parameter itself, which is also the string parsed. NOT decided: mutation performed by a user hook."
